@@ -354,8 +354,9 @@ def elbow_chain(ctx):
     decide(ctx, "disk-sketch", exc, ctx.case == "disk")
 
 
-@proof("C20", "LoftedShape.__init__/face-counts", cases=[(1, 1, None), (1, 2, None), (2, 1, None), (2, 2, 2), (2, 2, 1), (2, 2, 3)],
-       functions=["classy_blocks.construct.shape:LoftedShape.__init__"])
+@proof("C20", "LoftedShape.__init__/face-counts", cases=[(1, 1, None), (1, 2, None), (2, 1, None), (2, 2, 2), (2, 2, 1), (2, 2, 3),
+                                                         (2, 2, [2]), (2, 2, [3]), (2, 2, [1]), (2, 2, [2, 2]), (2, 2, [2, 3]), (2, 2, [1, 2])],
+       functions=["classy_blocks.construct.shape:LoftedShape.__init__"], note="mid sketch absent, a single sketch, or a list of one or two sketches")
 def lofted_init(ctx):
     n1, n2, nm = ctx.case
 
@@ -367,9 +368,14 @@ def lofted_init(ctx):
     class L(shape_mod.LoftedShape):
         pass
 
-    mid = None if nm is None else Sk(nm, "m")
+    if isinstance(nm, list):
+        mid = [Sk(k, f"m{q}") for q, k in enumerate(nm)]
+        mids = nm
+    else:
+        mid = None if nm is None else Sk(nm, "m")
+        mids = [] if nm is None else [nm]
     _, exc = ctx.call(L, Sk(n1, "a"), Sk(n2, "b"), mid)
-    decide(ctx, "equal-face-counts", exc, n1 == n2 and (nm is None or nm == n1))
+    decide(ctx, "equal-face-counts", exc, n1 == n2 and all(k == n1 for k in mids))
 
 
 @proof("C20", "Annulus.__init__", cases=["inner>outer", "inner==outer", "inner<outer", "tilt+", "tilt-"],
